@@ -58,7 +58,7 @@ ASSUMPTIONS = [
 ]
 TIERS = {
     "quick": {"shards": 16, "cases": 260, "timeout": 600},
-    "thorough": {"shards": 16, "cases": 7800, "timeout": 7200},
+    "thorough": {"shards": 16, "cases": 15600, "timeout": 7200},
 }
 FLOORS = {
     "quick": {
